@@ -3,7 +3,7 @@ rejections).  A kit looks at the current state through public accessors and prop
 argument class: typical, zero, exact, one-ulp-over, oversized, whole-wallet, negative, invalid."""
 from decimal import Decimal
 
-ARG_CLASSES = ("typical", "typical", "typical", "small", "zero", "exact", "ulp_over", "ulp_under", "x10", "x1e6", "negative")
+ARG_CLASSES = ("typical", "typical", "typical", "small", "zero", "exact", "ulp_over", "ulp_under", "x10", "x1e6", "negative", "dust", "subwei")
 
 
 class Op:
@@ -32,6 +32,10 @@ def amount_of(rng, holding: Decimal, cls: str, dec=18) -> Decimal:
         a = holding * Decimal(rng.randint(1, 100)) / 10**6
     elif cls == "zero":
         return Decimal(0)
+    elif cls == "dust":  # a few atomic units
+        return Decimal(rng.choice([1, 3, 17])).scaleb(-dec)
+    elif cls == "subwei":  # positive, affordable, and smaller than any atomic unit
+        return Decimal(rng.choice(["1e-22", "3e-27", "4.2e-20"]))
     elif cls == "exact":
         return holding
     elif cls == "ulp_over":
